@@ -356,19 +356,25 @@ def rejected(model_line):
 def nontrivial(case, out):
     if out in ("hang", "skipped-after-hang"):
         return False
-    if case.startswith(("churn", "rchurn", "bulk", "rbulk")):
-        return True
+    if case.startswith(("churn", "rchurn", "bulk", "rbulk", "probe")):
+        return case[0] != "p"
     if case.startswith("seq"):
         toks = out.split()
         return any(t.startswith("h") for t in toks) and any(t in ("t", "1", "panic") for t in toks)
     return len(conc_obs(out)) >= 2
 
 
+_HANG_SEEN = [False]
+
+
 def classify(case, impl, model):
     if impl.strip() == "hang":
+        _HANG_SEEN[0] = True        # every shrink candidate would wait out the watchdog again: report the case as it is
         return "P", "harness watchdog fired: an emitter, the tick or a subscriber blocked (non-blocking clause)"
     if impl.strip() == "skipped-after-hang":
         return "G", "not run: an earlier case of the batch hung"
+    if case.startswith("probe"):
+        return "P", "the package exports a non-positive default series cap: %r" % impl
     if case.startswith(("bulk", "rbulk")):
         t = case.split()
         return "P", ("metric registered with MaxSeriesPerMetric=%s (0 = omitted => the default the package exports), %s distinct tuples from %s "
@@ -416,6 +422,20 @@ def classify(case, impl, model):
             if f.get("d") == f.get("u") == f.get("s") == "0" and not retired and sum(int(v.split("/")[1]) for v in vals) != emitted:
                 return "P", ("histogram sums shown (%d) differ from the sum of the observed values (%d) although nothing was dropped: "
                              "an observation was lost from the sum: %s" % (sum(int(v.split("/")[1]) for v in vals), emitted, o))
+    if case.startswith(("conc", "rconc")):
+        # a tombstone although the cap can never have been reached: the whole case contains at most cap WithLabelValues calls
+        # (so not even all reservations together reach it) and no colliding tuples: an emission that belongs to a series
+        # (existing or creatable) was turned into a cardinality drop
+        t = case.split()
+        nres = sum(x.startswith("r:") for p in t[6:] for x in p.split("/"))
+        colliding = "61ff,62" in case and "61,ff62" in case
+        if (cap <= 0 or nres <= cap) and not colliding:
+            for o in bad:
+                f = dict(x.split("=", 1) for x in o.split(";") if "=" in x)
+                res = [r for k, v in f.items() if k == "S" or re.fullmatch(r"T\d+", k) for r in v.split(".")]
+                if "t" in res:
+                    return "P", ("tombstone handed out (emission counted as a cardinality drop) although the series cap %s cannot "
+                                 "have been reached (%d WithLabelValues calls in the whole case): %s" % (t[2], nres, o))
     for o in bad:
         m = obs_monitor(cap, o)
         if m:
@@ -429,7 +449,11 @@ def signature(case, impl, models):
 
 
 def shrink(case):
+    if _HANG_SEEN[0]:
+        return
     t = case.split()
+    if t[0] == "probe":
+        return
     if t[0] in ("bulk", "rbulk"):
         g = int(t[4])
         if g > 1:
@@ -499,7 +523,7 @@ def distribution(cases, impl):
     for c, o in zip(cases, impl):
         t = c.split()
         d[t[0]] = d.get(t[0], 0) + 1
-        if t[0] in ("churn", "rchurn", "bulk", "rbulk"):
+        if t[0] in ("churn", "rchurn", "bulk", "rbulk", "probe"):
             continue
         if t[0] in ("reg", "rreg"):
             obs = conc_obs(o or "")
